@@ -68,7 +68,7 @@ def is_borrowing(ctx, cls: ClassInfo) -> bool:
             raise AnalysisError(f"anchor vanished: {cls.name}.{name}")
         for n in walk_shallow(m.node):
             t = fstring_template(n) if isinstance(n, ast.JoinedStr) else None
-            if t and ".at[" in t and ".set(" in t:
+            if t and ".at[" in t:
                 return False
     return True
 
